@@ -1162,7 +1162,7 @@ def Editor.processKey (e : Editor D L) (ev : KeyEvent) : Outcome (Editor D L × 
   | .panic p => .panic p
   | .outOfFuel => .outOfFuel
   | .ok (sh, st) =>
-    let r2 := if st == .entering && sh.last == .absorb then Shared.tryAutoCommit env sh else .ok sh
+    let r2 := if (st == .entering || st == .enteringSyllable) && sh.last == .absorb then Shared.tryAutoCommit env sh else .ok sh
     match r2 with
     | .panic p => .panic p
     | .outOfFuel => .outOfFuel
@@ -1214,15 +1214,16 @@ def Editor.setOptions (e : Editor D L) (o : Options) : Editor D L :=
   Editor.leaveIfEmpty env { e with shared := { sh with options := o } }
 
 /-- `Editor::select(n)`; `Bool` = `Ok`.  The auto-commit runs only once the candidate list has closed
-    (`self.state.is_entering() &&`, as in `process_keyevent`; before the C01 fix it also ran under a list
-    that stayed open, cutting the buffer from under the selector) -/
+    (`(self.is_entering() || self.is_entering_syllable()) &&`, as in `process_keyevent` — both editing states
+    since the FX3/FX4 repair; before the C01 fix it also ran under a list that stayed open, cutting the
+    buffer from under the selector) -/
 def Editor.select (e : Editor D L) (n : Nat) : Outcome (Editor D L × Bool) :=
   match e.state with
   | .selecting s =>
     match Selecting.select env s e.shared n with
     | .ok (s', sh, t) =>
       let (sh, st) := applyTrans sh (.selecting s') t
-      let r := if st == .entering && sh.last == .absorb then Shared.tryAutoCommit env sh else .ok sh
+      let r := if (st == .entering || st == .enteringSyllable) && sh.last == .absorb then Shared.tryAutoCommit env sh else .ok sh
       match r with
       | .ok sh => .ok ({ shared := sh, state := st }, sh.last != .bell)
       | .panic p => .panic p
